@@ -218,6 +218,9 @@ def cases_for(tier, s):
     base = c08.cases_for(tier, s)
     if tier == "quick":
         base = base[::2]
+    # large element blocks (more than 32 / 64 dofs per argument): big work arrays, long inner loops
+    base = [{"recipe": {"b": "mass", "cell": "tetrahedron", "p": {"degree": 4}}}, {"recipe": {"b": "mass", "cell": "hexahedron", "p": {"degree": 3}}},
+            {"recipe": {"b": "stiff_nl", "cell": "triangle", "p": {"degree": 7}}}, {"recipe": {"b": "mass", "cell": "quadrilateral", "p": {"degree": 6}}}] + base
     out = []
     for i, c in enumerate(base):
         c = {k: v for k, v in c.items() if k in ("recipe", "options")}
